@@ -289,11 +289,11 @@ func runSiblings(h shist, ev sevent) (res sres, viol error, herr error) {
 		viol = &violation{kind: v.kind, detail: versionPrefix.ReplaceAllString(msg, "<version>-")}
 	}()
 
-	ds := make([]*dir.Dir, n)   // the Dir that owns each target (nil: none alive)
-	wrote := make([]bool, n)    // that Dir has been inside a Write
-	loose := make([]bool, n)    // leftovers attributable to the target are allowed from here on
-	var lastNano int64          // version directories are named by the clock: strictly increasing over the whole case
-	var carried *faultState     // a fault kept in force for the next Write
+	ds := make([]*dir.Dir, n) // the Dir that owns each target (nil: none alive)
+	wrote := make([]bool, n)  // that Dir has been inside a Write
+	loose := make([]bool, n)  // leftovers attributable to the target are allowed from here on
+	var lastNano int64        // version directories are named by the clock: strictly increasing over the whole case
+	var carried *faultState   // a fault kept in force for the next Write
 	crashedYet, faultedYet := false, false
 	all := append(append([]sstep(nil), h.Steps...), h.Final...)
 	for s, st := range all {
@@ -558,7 +558,9 @@ func checkSiblings(h shist, faults bool, sec *vk.Section) *failure {
 					}
 				}
 				sec.Case(nontrivial, vk.FP(h.String(), ev.String()), cls...)
-				sec.Sample(func() any { return fmt.Sprintf("%s event=%s (%s; %s) errored=%v", h, ev, pts[k], res.what, res.errored) })
+				sec.Sample(func() any {
+					return fmt.Sprintf("%s event=%s (%s; %s) errored=%v", h, ev, pts[k], res.what, res.errored)
+				})
 			}
 		}
 	}
@@ -642,13 +644,18 @@ func genSiblings(rt *rapid.T) shist {
 	h.Keep = rapid.Bool().Draw(rt, "faultKeptForNextWrite")
 	h.Disk = rapid.IntRange(0, 7).Draw(rt, "disk") == 0
 	ns := rapid.IntRange(2, 5).Draw(rt, "steps")
+	written := make([]bool, len(h.Names))
 	for i := 0; i < ns; i++ {
 		l := fmt.Sprintf("s%d", i)
-		h.Steps = append(h.Steps, sstep{
+		st := sstep{
 			T:     rapid.IntRange(0, len(h.Names)-1).Draw(rt, l+".target"),
 			Set:   genSibSet(rt, l),
-			Fresh: rapid.IntRange(0, 2).Draw(rt, l+".restartBefore") == 0,
-		})
+			Fresh: rapid.IntRange(0, 2).Draw(rt, l+".restartBefore") == 2,
+		}
+		// a restart before the first Write of a target is no restart (one encoding per case)
+		st.Fresh = st.Fresh && written[st.T]
+		written[st.T] = true
+		h.Steps = append(h.Steps, st)
 	}
 	idx := make([]int, len(h.Names))
 	for i := range idx {
@@ -656,7 +663,7 @@ func genSiblings(rt *rapid.T) shist {
 	}
 	for i, t := range rapid.Permutation(idx).Draw(rt, "finalOrder") {
 		l := fmt.Sprintf("f%d", i)
-		h.Final = append(h.Final, sstep{T: t, Set: genSibSet(rt, l), Fresh: rapid.Bool().Draw(rt, l+".restartBefore")})
+		h.Final = append(h.Final, sstep{T: t, Set: genSibSet(rt, l), Fresh: rapid.Bool().Draw(rt, l+".restartBefore") && written[t]})
 	}
 	return h
 }
@@ -665,7 +672,7 @@ func genSiblings(rt *rapid.T) shist {
 // (hook point x fault kind) of the script is enumerated.
 func TestSiblingHistories(t *testing.T) {
 	sec := vk.Sec("SiblingHistories")
-	vk.Check(t, 60, 6000, func(rt *rapid.T) {
+	vk.Check(t, 40, 5000, func(rt *rapid.T) {
 		h := genSiblings(rt)
 		if f := checkSiblings(h, true, sec); f != nil {
 			rt.Logf("%s", f.full)
@@ -692,7 +699,8 @@ func sweepNames() []string {
 // sweep names (the stem and every relation applied to it) that contains the stem, on an existing
 // base directory (thorough: also on a missing one, and every ordered pair of all sweep names) x
 // the script A{a} B{a,b} A{b} B(fresh Dir){} A(fresh Dir){a}, then B{b} A(fresh Dir){a,b} x no
-// event and every crash point of the script (x crash kills the writing Dir / every Dir).
+// event and every crash point of the script, the crash killing the writing Dir only (thorough: and
+// killing every Dir).
 func TestSiblingSweep(t *testing.T) {
 	sec := vk.Sec("SiblingSweep")
 	names := sweepNames()
@@ -711,6 +719,9 @@ func TestSiblingSweep(t *testing.T) {
 					continue
 				}
 				for _, one := range []bool{false, true} {
+					if one && !vk.Thorough() {
+						continue
+					}
 					idx++
 					if !vk.Mine(idx) {
 						continue
